@@ -125,22 +125,40 @@ func deepCopy(x interface{}) (interface{}, error) {
 // messages (a state, a machine, a crew, a result ...).
 const MaxDepth = 10000 - 100
 
+// MaxSize is the largest number of values (counting every member of
+// every map and array, as often as it is reachable) that a script can
+// emit or return.
+//
+// Export preserves sharing: a script that builds a = {l: a, r: a}
+// sixty-four times over hands back a value that is 64 levels deep, a few
+// hundred bytes in memory - and 2^64 values when it is written out.
+const MaxSize = 10 * 1000 * 1000
+
 // tooDeep reports whether x (maps and arrays as Export gives them) is
-// nested deeper than the given number of levels.
+// nested deeper than the given number of levels, or too large to be
+// written out (see MaxSize).
 func tooDeep(x interface{}, levels int) bool {
+	budget := MaxSize
+	return tooDeepOrBig(x, levels, &budget)
+}
+
+func tooDeepOrBig(x interface{}, levels int, budget *int) bool {
 	if levels < 0 {
+		return true
+	}
+	if *budget--; *budget < 0 {
 		return true
 	}
 	switch vv := x.(type) {
 	case map[string]interface{}:
 		for _, v := range vv {
-			if tooDeep(v, levels-1) {
+			if tooDeepOrBig(v, levels-1, budget) {
 				return true
 			}
 		}
 	case []interface{}:
 		for _, v := range vv {
-			if tooDeep(v, levels-1) {
+			if tooDeepOrBig(v, levels-1, budget) {
 				return true
 			}
 		}
@@ -234,7 +252,7 @@ func (i *Interpreter) Exec(ctx context.Context, bs match.Bindings, props core.St
 
 		if tooDeep(x, MaxDepth) {
 			// Will end up as a Javascript exception.
-			panic(errors.New("message nested too deeply"))
+			panic(errors.New("message nested too deeply (or too large)"))
 		}
 
 		if x, err = core.Canonicalize(x); err != nil {
@@ -414,7 +432,7 @@ func (i *Interpreter) Exec(ctx context.Context, bs match.Bindings, props core.St
 		return nil, err
 	}
 	if tooDeep(x, MaxDepth) {
-		return nil, errors.New("returned bindings nested too deeply")
+		return nil, errors.New("returned bindings nested too deeply (or too large)")
 	}
 
 	var result match.Bindings
@@ -495,7 +513,7 @@ func copyPropValue(x interface{}) interface{} {
 // canonicalize is an abomination
 func canonicalize(x interface{}) (interface{}, error) {
 	if tooDeep(x, MaxDepth) {
-		return nil, errors.New("value nested too deeply")
+		return nil, errors.New("value nested too deeply (or too large)")
 	}
 	js, err := json.Marshal(&x)
 	if err != nil {
